@@ -43,6 +43,33 @@ def interleave(rng, programs):
     return out
 
 
+class OpTimeout(Exception):
+    pass
+
+
+class op_timeout:
+    """Wall-clock guard around ONE library call that normally takes milliseconds: a call that is still running
+    after `sec` seconds is an endless loop in the code under test (reported as violation class "hang")."""
+
+    def __init__(self, sec):
+        self.sec = sec
+
+    def _fire(self, signum, frame):
+        raise OpTimeout()
+
+    def __enter__(self):
+        import signal
+        self.old = signal.signal(signal.SIGALRM, self._fire)
+        signal.setitimer(signal.ITIMER_REAL, self.sec)
+        return self
+
+    def __exit__(self, *a):
+        import signal
+        signal.setitimer(signal.ITIMER_REAL, 0)
+        signal.signal(signal.SIGALRM, self.old)
+        return False
+
+
 def op_kinds_hash(history):
     return core.hash_obj([[o.get("op"), o.get("s")] for o in history["ops"]])
 
@@ -291,13 +318,22 @@ class Runner:
                     continue
                 nmin += 1
                 vclass = viol["class"]
-                if not self.fails(v["history"], vclass):
-                    raise core.HarnessError("%s violation %s (history %d) did not reproduce in a fresh process" % (PROP, vclass, v["index"]))
+                r0 = self.execute_iso(v["history"])
+                if not any(x["class"] == vclass for x in r0["violations"]):
+                    if not r0["violations"]:
+                        raise core.HarnessError("%s violation %s (history %d) did not reproduce in a fresh process" % (PROP, vclass, v["index"]))
+                    # the same history shows a violation of another class in a fresh process (e.g. a wall-clock "hang"
+                    # guard firing or not under load): report what the fresh process shows
+                    vclass = r0["violations"][0]["class"]
                 small = self.minimise(v["history"], vclass)
                 rr = self.execute_iso(small)
                 vv = [x for x in rr["violations"] if x["class"] == vclass]
                 if not vv:
-                    raise core.HarnessError("%s minimised history lost its violation" % PROP)
+                    small = v["history"]
+                    rr = r0 if any(x["class"] == vclass for x in r0["violations"]) else self.execute_iso(small)
+                    vv = [x for x in rr["violations"] if x["class"] == vclass]
+                    if not vv:
+                        raise core.HarnessError("%s history %d lost its violation on re-execution" % (PROP, v["index"]))
                 sig = mod.signature(small, vv[0])
                 if sig in seen and sig != pre_sig:
                     continue
